@@ -69,11 +69,11 @@ var refByName = func() map[string]toolRef {
 
 // gateCfg is one server configuration of the table.
 type gateCfg struct {
-	Role      string `json:"role"`       // "read" | "operate" | "admin" | invalid string
-	RoleVia   string `json:"role_via"`   // "option" (WithRole) | "field" (Server.Role assigned after construction)
-	Mut       bool   `json:"mutations"`  // --enable-mutations
-	RT        bool   `json:"runtime"`    // --enable-runtime-control
-	Principal string `json:"principal"`  // "" = not configured
+	Role      string `json:"role"`      // "read" | "operate" | "admin" | invalid string
+	RoleVia   string `json:"role_via"`  // "option" (WithRole) | "field" (Server.Role assigned after construction)
+	Mut       bool   `json:"mutations"` // --enable-mutations
+	RT        bool   `json:"runtime"`   // --enable-runtime-control
+	Principal string `json:"principal"` // "" = not configured
 }
 
 func (c gateCfg) key() string {
